@@ -24,6 +24,20 @@ def tbsOnly : Out Asn1 → Out Asn1
   | .ok (.cons _ _ (tbs :: _)) => .ok tbs
   | x => x
 
+/-- the extension identifiers the RFC 5280 reader interprets (Proofs/X509 `knownOids`).  The
+    "exactly the requested extensions" clauses compare *interpreted* values and are stated — like
+    the theorems — for caller-supplied extensions under other identifiers; for a caller extension
+    under one of these the byte-level clause `custom-content-verbatim` and the tie speak instead -/
+def interpretedExtOids : List (List Nat) :=
+  [[2,5,29,35], [2,5,29,14], [2,5,29,15], [2,5,29,37], [2,5,29,19], [2,5,29,17], [2,5,29,30],
+   [2,5,29,31], [2,5,29,20], [2,5,29,28], [2,5,29,21], [2,5,29,24]]
+
+def customCollides (p : CertParams) : Bool :=
+  p.customExts.any (fun e => interpretedExtOids.contains e.oid)
+
+def dropIf (c : Bool) (names : List String) (fs : List String) : List String :=
+  if c then fs.filter (fun f => !names.contains f) else fs
+
 def failList (fs : List String) : Sexp :=
   if fs.isEmpty then .atom "ok" else .list (.atom "fail" :: fs.map Sexp.atom)
 
@@ -136,12 +150,16 @@ def handle (op : String) (args : List Sexp) : R Sexp := do
     | none => pure (failList ["C01:outer-structure", "C04:canonical-der"])
     | some (tbs, _, _) =>
       pure (failList (
-        Spec.c02Clauses inp tbs ++ Spec.c05CertClauses inp tbs ++ Spec.c09CertClauses inp tbs ++
+        dropIf (customCollides p) ["C02:extensions-exactly-requested"] (Spec.c02Clauses inp tbs) ++
+        Spec.c05CertClauses inp tbs ++ Spec.c09CertClauses inp tbs ++
         Spec.c01Clauses i.key.alg der (fun t => (Spec.decodeTbsCert t).map (·.sigAlg)) ++
         Spec.clause "C04:canonical-der" (Spec.certCanonical der) ++
+        -- read at the level of the Extension itself (identifier, criticality, extnValue octets),
+        -- so that it also speaks about caller extensions under an identifier the reader interprets
         Spec.clause "C04:custom-content-verbatim" (p.customExts.all (fun e =>
-          match Spec.decodeTbsCert tbs with
-          | some c => c.exts.any (fun x => x.oid == e.oid && x.value == .opaque e.content)
+          match Spec.rawCertExts tbs with
+          | some xs => xs.count (e.oid, e.critical, e.content) ≥
+              (p.customExts.filter (fun d => d.oid == e.oid && d.critical == e.critical && d.content == e.content)).length
           | none => false))))
   | "spec-cert-object", [cfg, p, k, i, der, kid] => do
     -- the `Certificate` value: the key identifier it reports against the DER (specification) and
@@ -167,8 +185,13 @@ def handle (op : String) (args : List Sexp) : R Sexp := do
     match Spec.splitSigned der with
     | none => pure (failList ["C01:outer-structure", "C04:canonical-der"])
     | some (info, _, _) =>
+      let callerAsksForExtensions := attrs.any (fun a => a.oid == Spec.oidExtensionRequest)
       pure (failList (
-        Spec.c07Clauses { p := p, subject := k, attrs := attrs } info ++ Spec.c05CsrClauses info ++
+        dropIf (customCollides p) ["C07:extension-request-exactly-requested"]
+          (Spec.c07Clauses { p := p, subject := k, attrs := attrs } info) ++
+        -- "at most one extension request" is about what rcgen adds: a caller who supplies such an
+        -- attribute has asked for it to be there
+        dropIf callerAsksForExtensions ["C05:csr-at-most-one-extension-request"] (Spec.c05CsrClauses info) ++
         Spec.c01Clauses k.alg der (fun _ => none) ++
         Spec.clause "C04:canonical-der" (Spec.csrCanonical der) ++
         -- caller-supplied attribute values embedded byte for byte (as many times as supplied)
@@ -181,8 +204,9 @@ def handle (op : String) (args : List Sexp) : R Sexp := do
         Spec.clause "C04:custom-content-verbatim" (p.customExts.all (fun e =>
           match Spec.decodeCsrInfo info with
           | some c => c.attrs.any (fun d =>
-              match Spec.decodeExtensionRequestAll d.values with
-              | some exts => exts.any (fun x => x.oid == e.oid && x.value == .opaque e.content)
+              d.oid == Spec.oidExtensionRequest &&
+              match Spec.rawRequestExts d.values with
+              | some xs => xs.contains (e.oid, e.critical, e.content)
               | none => false)
           | none => false))))
   | "spec-csr-issue", [csr, cert] => do
@@ -252,7 +276,8 @@ def handle (op : String) (args : List Sexp) : R Sexp := do
       | "ring" => pure Backend.ring | "aws" => pure Backend.aws | s => throw s!"bad backend {s}"
     let kty ← match ← kty.asAtom with
       | "ed25519" => pure KeyType.ed25519 | "p256" => pure KeyType.p256 | "p384" => pure KeyType.p384
-      | "p521" => pure KeyType.p521 | "rsa" => pure KeyType.rsa | s => throw s!"bad kty {s}"
+      | "p521" => pure KeyType.p521 | "rsa" => pure KeyType.rsa | "rsaBig" => pure KeyType.rsaBig
+      | s => throw s!"bad kty {s}"
     let out ← match ← fmt.asAtom with
       | "generated" => pure (exportFormat b kty)
       | "pkcs8v1" => pure (exportOfLoaded b ⟨.pkcs8v1, kty⟩)
@@ -270,7 +295,8 @@ def handle (op : String) (args : List Sexp) : R Sexp := do
       | "sec1" => pure DocFormat.sec1 | "pkcs1" => pure DocFormat.pkcs1 | s => throw s!"bad fmt {s}"
     let kty ← match ← kty.asAtom with
       | "ed25519" => pure KeyType.ed25519 | "p256" => pure KeyType.p256 | "p384" => pure KeyType.p384
-      | "p521" => pure KeyType.p521 | "rsa" => pure KeyType.rsa | s => throw s!"bad kty {s}"
+      | "p521" => pure KeyType.p521 | "rsa" => pure KeyType.rsa | "rsaBig" => pure KeyType.rsaBig
+      | s => throw s!"bad kty {s}"
     let d : KeyDoc := { fmt := fmt, kty := kty }
     let out ← match ← entry.asAtom with
       | "auto" => pure (autodetect b d)
